@@ -2,6 +2,7 @@ package main
 
 import (
 	"fmt"
+	"os"
 	"sync/atomic"
 
 	"github.com/frankkopp/FrankyGo/internal/position"
@@ -312,5 +313,81 @@ func c10(tier string, args []string) int {
 	}
 	c10Histories(run, maxNodes)
 	c10Material(run)
+	c10TradeDowns(run)
 	return run.Finish()
+}
+
+// matOf: the material signature of one side of a reference position
+func matOf(r *refchess.Pos, white bool) sideMat {
+	var s sideMat
+	for sq, pc := range r.B {
+		if pc == 0 || (pc > 0) != white {
+			continue
+		}
+		if pc < 0 {
+			pc = -pc
+		}
+		switch pc {
+		case refchess.Knight:
+			s.n++
+		case refchess.Bishop:
+			if refchess.SquareColor(sq) == 1 {
+				s.bl++
+			} else {
+				s.bd++
+			}
+		case refchess.Queen:
+			s.q++
+		case refchess.Rook:
+			s.r++
+		case refchess.Pawn:
+			s.p++
+		}
+	}
+	return s
+}
+
+// c10TradeDowns: the material clause over histories: scripted games that start with far more material than an original
+// set (8 queens) and trade everything off on one square; at every ply the answer on the live position is judged by the
+// classes of the statement and compared with a fresh position built from the current FEN.
+func c10TradeDowns(run *vl.Run) {
+	line := []string{"d4d5", "d6d5", "d3d5", "d7d5", "d2d5", "d8d5", "d1d5", "e6d5"}
+	for _, rest := range []string{"r2", "bn1", "1n1", "q2", "2b"} { // what black keeps on a8..c8: rook / bishop+knight / knight / queen / bishop
+		fen := rest + "q4/3q4/3qk3/3q4/3Q4/3Q4/3Q4/3Q2K1 w - - 0 1"
+		r, err := refchess.ParseFEN(fen)
+		if err != nil || !r.Valid() {
+			fmt.Fprintln(os.Stderr, "c10TradeDowns: bad seed", fen)
+			os.Exit(2)
+		}
+		p, err := position.NewPositionFen(fen)
+		if err != nil {
+			run.Violate("setup-failed", err.Error(), map[string]interface{}{"fen": fen})
+			continue
+		}
+		for k := 0; k <= len(line); k++ {
+			run.AddStates(1)
+			run.Count("trade_down_plies", 1)
+			got := p.HasInsufficientMaterial()
+			rep := map[string]interface{}{"kind": "history", "fen": fen, "moves": line[:k], "position": r.FEN()}
+			switch req := requiredVerdict(matOf(r, true), matOf(r, false)); {
+			case req == -1 && got:
+				run.Violate("insufficient:claimed-after-trade-down", "insufficient material reported although a pawn/rook/queen or mating material is on the board (position reached by exchanges from a position with 8 queens)", rep)
+			case req == 1 && !got:
+				run.Violate("insufficient:missed-after-trade-down", "dead position reached by exchanges not reported as insufficient material", rep)
+			}
+			if fp, err := position.NewPositionFen(r.FEN()); err == nil && fp.HasInsufficientMaterial() != got {
+				run.Violate("insufficient:history-dependent", fmt.Sprintf("HasInsufficientMaterial()=%v on the position reached by play, %v on the same position set up from FEN", got, !got), rep)
+			}
+			if k == len(line) {
+				break
+			}
+			m, ok := r.FindUci(line[k])
+			if !ok {
+				fmt.Fprintln(os.Stderr, "c10TradeDowns: scripted move not legal:", line[k], r.FEN())
+				os.Exit(2)
+			}
+			p.DoMove(eng.EngMove(m))
+			r = r.Make(m)
+		}
+	}
 }
